@@ -86,7 +86,13 @@ def canonicalize_metadata(
     for value in values:
         if isinstance(value, dict | list | tuple):
             value = canonicalize_metadata(value)
-        elif isinstance(value, int | float | str | np.ndarray) or value is None:
+        elif isinstance(value, np.ndarray):
+            # NB! str(ndarray) prints only 8 significant digits and elides the
+            # middle of large arrays, so different arrays could get the same
+            # signature and be merged into one integral. Use all entries at
+            # full precision.
+            value = f"array({value.tolist()!r}, dtype={value.dtype})"
+        elif isinstance(value, int | float | str) or value is None:
             value = str(value)
         elif hasattr(value, "ufl_signature"):
             value = value.ufl_signature
